@@ -181,6 +181,19 @@ def validate_evidence(ev):
 
 
 def main(argv):
+    # one scratch root per run: worker processes create their temporary files below it, and it is removed when the run ends
+    # (workers are terminated without running their exit handlers, so they cannot be trusted to clean up themselves)
+    import shutil
+    import tempfile
+    root = tempfile.mkdtemp(prefix='verif_run_', dir='/dev/shm' if os.path.isdir('/dev/shm') else None)
+    os.environ['VERIF_SCRATCH_ROOT'] = root
+    try:
+        return _main(argv)
+    finally:
+        shutil.rmtree(root, ignore_errors=True)
+
+
+def _main(argv):
     if len(argv) < 2:
         print('usage: check <ID> [quick|thorough] [--replay path]')
         return 2
